@@ -10,13 +10,14 @@
     /repo/vm.go:759   pushTryFrame / 773 popTryFrame / 777 restoreStacks / 800 handleThrow
     /repo/vm.go:906   saveCtx / 911 pushCtx / 922 restoreCtx / 927 popCtx
     /repo/func.go:762 generator.enter / 863 enterNext / 847-859 the yield epilogue of generator.step /
-                      871 generator.next epilogue (popTryFrame; popCtx)
+                      871 generator.next epilogue (popTryFrame; popCtx) / 769 enterNextFinallyFrame (as repaired by 8004794)
 
   Abstractions (recorded in design/C09.md):
     * the operand stack is the list `vm.stack[0:sp]` (so `sp = stack.length`); slots above `sp` are dead;
     * JS values, stashes, programs, iterator records and refs are opaque `Nat` identities;
-    * `uint32` lengths are `Nat` (no wrap-around: stack lengths < 2^32); `tf.iterLen -= iterStackLen` is
-      truncated subtraction, exact under the invariant `FramesAbove` that `pushTryFrame` establishes;
+    * `uint32` lengths and the `int32` `tf.sp` are `Nat` (no wrap-around: stack lengths < 2^31); `tf.iterLen -= iterStackLen`,
+      `tf.sp -= sp` are truncated subtraction, exact under the invariant `FramesAbove` that `pushTryFrame` establishes;
+    * `handleThrow` works on a list, so the re-taking of the frame pointer after `restoreStacks` (fix eae3f2a) is implicit;
     * only the catchable case of `handleThrow` (`ex != nil`) is modelled.
   Core Lean only (linked into the model driver).
 -/
@@ -39,7 +40,7 @@ structure TryFrame where
   callStackLen : Nat
   iterLen : Nat
   refLen : Nat
-  sp : Int
+  sp : Nat
   stash : Nat
   catchPos : Int
   finallyPos : Int
@@ -69,11 +70,11 @@ deriving DecidableEq, Repr, Inhabited
 def VM.sp (vm : VM) : Int := vm.stack.length
 
 /-- vm.go:74-80: the rebasing applied to one saved try frame by `suspend`. -/
-def TryFrame.toRel (tf : TryFrame) (iterStackLen refStackLen : Nat) (sp : Int) : TryFrame :=
+def TryFrame.toRel (tf : TryFrame) (iterStackLen refStackLen : Nat) (sp : Nat) : TryFrame :=
   { tf with iterLen := tf.iterLen - iterStackLen, refLen := tf.refLen - refStackLen, sp := tf.sp - sp }
 
 /-- vm.go:99-105: the rebasing applied to one saved try frame by `resume`. -/
-def TryFrame.toAbs (tf : TryFrame) (callLen iterLen refLen : Nat) (sp : Int) : TryFrame :=
+def TryFrame.toAbs (tf : TryFrame) (callLen iterLen refLen : Nat) (sp : Nat) : TryFrame :=
   { tf with callStackLen := callLen, iterLen := tf.iterLen + iterLen, refLen := tf.refLen + refLen,
             sp := tf.sp + sp }
 
@@ -84,7 +85,7 @@ def suspend (vm : VM) (tryStackLen iterStackLen refStackLen : Nat) : ExecCtx × 
   let (etry, vtry) :=
     if vm.tryStack.length > tryStackLen then                           -- :71
       ((vm.tryStack.drop tryStackLen).map                              -- :72, :75-80
-          (fun tf => tf.toRel iterStackLen refStackLen (vm.cur.sb - 1)),
+          (fun tf => tf.toRel iterStackLen refStackLen (vm.cur.sb - 1).toNat),
        vm.tryStack.take tryStackLen)                                   -- :73
     else ([], vm.tryStack)
   let (eiter, viter) :=
@@ -100,8 +101,8 @@ def suspend (vm : VM) (tryStackLen iterStackLen refStackLen : Nat) : ExecCtx × 
 
 /-- vm.go:92 `resume(ctx)`. -/
 def resume (vm : VM) (e : ExecCtx) : VM :=
-  let sp : Int := vm.stack.length                                      -- :94
-  { cur := { e.ctx with sb := sp + 1 }                                 -- :93, :95
+  let sp : Nat := vm.stack.length                                      -- :94
+  { cur := { e.ctx with sb := (sp : Int) + 1 }                         -- :93, :95
     stack := vm.stack ++ e.stack                                       -- :96-98
     callStack := vm.callStack
     tryStack := vm.tryStack ++ e.tryStack.map                          -- :99-106
@@ -156,7 +157,7 @@ def handleThrowLoop (ex : Nat) : Nat → VM → List Nat → Outcome × List Nat
             let c := vm.callStack.getD tf.callStackLen default
             { vm with cur := { c with stash := vm.cur.stash }, callStack := vm.callStack.take tf.callStackLen }
           else vm
-        let vm2 : VM := { vm1 with stack := vm1.stack.take tf.sp.toNat,          -- :815
+        let vm2 : VM := { vm1 with stack := vm1.stack.take tf.sp,          -- :815
                                    cur := { vm1.cur with stash := tf.stash } }   -- :816
         let (cl, vm3) := restoreStacks vm2 tf.iterLen tf.refLen                  -- :818
         let closed := closed ++ cl
@@ -209,9 +210,36 @@ def yieldEpilogue (g : Gen) (vm : VM) (hasValue : Bool) : Gen × VM :=
 /-- func.go:877-878 the epilogue of `generator.next`. -/
 def nextEpilogue (vm : VM) : VM := popCtx (popTryFrame vm)
 
+
+/-- func.go:769 `generator.enterNextFinallyFrame` as repaired by 8004794 (the frame of the finally block that
+return(v) enters is marked as an ordinary finally-only frame: catchPos = -1, not tryPanicMarker).  Returns
+`(canContinue, closed iterators, vm)`; the `restoreStacks` error branch (:779-782, an iterator's return() threw) is
+the `throwing` argument: the ids in it make the step throw instead. Fuel = number of try frames. -/
+def enterNextFinallyFrameLoop (throwing : List Nat) : Nat → VM → List Nat → Bool × List Nat × VM
+  | 0, vm, closed => (false, closed, vm)
+  | n + 1, vm, closed =>
+    match vm.tryStack.getLast? with
+    | none => (false, closed, vm)
+    | some tf =>
+      if tf.callStackLen ≠ vm.callStack.length then (false, closed, vm)             -- :775 function boundary
+      else
+        let (cl, vm1) := restoreStacks vm tf.iterLen tf.refLen                      -- :778
+        let closed := closed ++ cl
+        if cl.any (throwing.contains ·) then (true, closed, vm1)                    -- :779-782 vm.throw(ex)
+        else if tf.finallyPos ≥ 0 then                                              -- :783
+          (true, closed,
+           { vm1 with stack := vm1.stack.take tf.sp,                                -- :784
+                      cur := { vm1.cur with stash := tf.stash, pc := tf.finallyPos },   -- :785-787
+                      tryStack := vm1.tryStack.dropLast ++
+                        [{ tf with catchPos := -1, finallyPos := -1, finallyRet := -2 }] })   -- :788-790 (8004794)
+        else enterNextFinallyFrameLoop throwing n { vm1 with tryStack := vm1.tryStack.dropLast } closed   -- :793
+
+def enterNextFinallyFrame (throwing : List Nat) (vm : VM) : Bool × List Nat × VM :=
+  enterNextFinallyFrameLoop throwing vm.tryStack.length vm []
+
 /-- The generator-relative view of a try frame: what `suspend` stores (callStackLen is overwritten by `resume`,
 so it is not part of the view). -/
-def relView (tf : TryFrame) (iterBase refBase : Nat) (spBase : Int) : TryFrame :=
+def relView (tf : TryFrame) (iterBase refBase : Nat) (spBase : Nat) : TryFrame :=
   { (tf.toRel iterBase refBase spBase) with callStackLen := 0 }
 
 end GojaModel.C09.Mech
